@@ -16,6 +16,10 @@ Python programs (or is refused):
                  -> conditional expressions; `a if not c else b` -> `b if c else a`; `if not c: A else: B` -> swapped
   aliases        a local assigned exactly once to a name / attribute chain / constant, every use after the
                  assignment, no store to one of the chain's attribute names in the function -> substituted
+                 (also an alias of a helper itself: `h = self._helper` / `h = Cls._helper` / `h = _module_function`, then `h(..)`:
+                 inlining and alias substitution are repeated until nothing changes)
+  walrus         `if (x := e) ..:` -> `x = e; if x ..:` when the assignment expression is the first thing the test
+                 evaluates (the test itself, under `not`, first operand of and/or, left operand of a comparison)
   reach          the conjunction of conditions under which a node is evaluated: enclosing if / else /
                  conditional expression / `and` / `or`, and guard clauses (`if c: continue|return|raise|break`
                  before it); `not`, `is not`, `!=`, `not in`, De Morgan over path conditions and chained
@@ -523,17 +527,69 @@ class Normaliser:
             params.add(fn.args.vararg.arg)
         if fn.args.kwarg:
             params.add(fn.args.kwarg.arg)
-        body = strip(fn.body)
-        names = all_names(body) | params
-        body = self._inline_list(body, names, stack)
-        body = self._inline_exprs(body, names, stack)
-        body = merge_ifs(body)
-        body = subst_aliases(body, params)
-        body = merge_ifs(body)
-        for s in body:
-            ast.fix_missing_locations(s)
+        body = hoist_walrus(strip(fn.body))
+        # inlining and alias substitution enable each other (`h = self._helper` ... `h(x)`; a helper whose argument is an
+        # alias): repeat until nothing changes (bounded)
+        for _ in range(4):
+            before = [ast.dump(s) for s in body]
+            names = all_names(body) | params
+            body = self._inline_list(body, names, stack)
+            body = self._inline_exprs(body, names, stack)
+            body = merge_ifs(body)
+            body = subst_aliases(body, params)
+            body = merge_ifs(body)
+            for s in body:
+                ast.fix_missing_locations(s)
+            if [ast.dump(s) for s in body] == before:
+                break
         self.scope._cache[key] = body
         return [copy.deepcopy(s) for s in body]
+
+
+# ------------------------------------------------------------------------------------------------
+# assignment expression in the test of an `if`  ->  assignment statement before the `if`
+
+def _first_evaluated(test):
+    """(parent, field, index) chain to the sub-expression of `test` that is evaluated first and unconditionally"""
+    par, field, idx, cur = None, None, None, test
+    while True:
+        if isinstance(cur, ast.NamedExpr):
+            return par, field, idx, cur
+        if isinstance(cur, ast.UnaryOp) and isinstance(cur.op, ast.Not):
+            par, field, idx, cur = cur, "operand", None, cur.operand
+        elif isinstance(cur, ast.BoolOp):
+            par, field, idx, cur = cur, "values", 0, cur.values[0]
+        elif isinstance(cur, ast.Compare):
+            par, field, idx, cur = cur, "left", None, cur.left
+        else:
+            return None
+
+
+def hoist_walrus(body: list) -> list:
+    """`if (x := e) ..: A else: B`  ->  `x = e; if x ..: A else: B` when the assignment expression is the part of the
+    test that is evaluated first (the test itself, under `not`, first operand of and/or, left operand of a comparison).
+    Only `if` statements (an `elif` is an `if` inside `orelse`, evaluated only when reached); `while` is left alone."""
+    mod = ast.Module(body=body, type_ignores=[])
+    for lst in list(stmt_lists(mod)):
+        out = []
+        for st in lst:
+            if isinstance(st, ast.If):
+                fe = _first_evaluated(st.test)
+                if fe is not None and isinstance(fe[3].target, ast.Name):
+                    par, field, idx, ne = fe
+                    asg = ast.Assign(targets=[ast.Name(id=ne.target.id, ctx=ast.Store())], value=ne.value, lineno=st.lineno)
+                    name = ast.Name(id=ne.target.id, ctx=ast.Load())
+                    if par is None:
+                        st.test = name
+                    elif idx is None:
+                        setattr(par, field, name)
+                    else:
+                        getattr(par, field)[idx] = name
+                    out.append(ast.fix_missing_locations(ast.copy_location(asg, st)))
+                    ast.fix_missing_locations(st)
+            out.append(st)
+        lst[:] = out
+    return mod.body
 
 
 # ------------------------------------------------------------------------------------------------
